@@ -33,6 +33,8 @@ inductive Act
   | wait (c : Cond) (onClose : Bool) -- blocking wait (ends on c, at the call's deadline, or — if the select has the
                                     -- connection context among its cases — when the connection closes: the call fails)
   | endCall (k : Nat)               -- the nested call returns (slots released, result logged)
+  | release (key : Nat)             -- one held slot of entry `key` is given back while the call goes on (NSTART: the slot a
+                                    -- confirmable request took before it was written, released when its acknowledgement wait ends)
   deriving Repr, DecidableEq
 
 inductive MKind
@@ -194,6 +196,8 @@ def doAct (s : State) (l : Nat) (lp : Loop) (act : Act) (rest : List Act) : Opti
                       sent := s.sent.filter (· ≠ k),
                       log := s.log ++ [.nested k lp.failed (s.now - lp.callStart)] }
     some (setLoop s l { lp with prog := rest, held := [], failed := 0 })
+  | .release key =>
+    some (setLoop { s with holders := removeOne key s.holders } l { lp with prog := rest, held := removeOne key lp.held })
 
 def step (s : State) : Event → State
   | .feederRead =>
@@ -262,6 +266,7 @@ def waitsPreceded : List Act → Bool
   | .startCall _ _ :: rest => waitsPreceded rest
   | .send _ :: rest => waitsPreceded rest
   | .endCall _ :: rest => waitsPreceded rest
+  | .release _ :: rest => waitsPreceded rest
 
 /-- … for every suffix that starts right after a point where the loop may have become current again: since a loop never
     becomes current again once replaced, it is enough that the *first* blocking construct is preceded. -/
